@@ -693,6 +693,8 @@ pub fn constants_program(rng: &mut Rng) -> (String, String) {
           format!("|{}| {} |", head.join(" "), body.join(" | "))
         }
       }
+      10 if rng.chance(1, 4) => { let m = 1 + rng.usize(3); format!("{{{}}}", (0..m).map(|j| format!("{{{}, {}}}", j * 2 + 1, j * 2 + 2)).collect::<Vec<_>>().join(", ")) } // a set of sets
+      10 if rng.chance(1, 4) => { lines.push(format!("e{} := [1 2 3]", i)); format!("e{}[e{} > {}]", i, i, *rng.pick(&[0u64, 2, 5])) } // a selection that may be empty
       10 => { let m = 1 + rng.usize(3); format!("{{{}}}", (0..m).map(|j| format!("\"k{}{}\": {}", j, rand_string(rng), if rng.chance(1, 2) { format!("\"{}\"", rand_string(rng)) } else { num(rng, "f64") })).collect::<Vec<_>>().join(", ")) }
       _ => matrix(rng), // no tuple literals: `compile()` does not terminate on tuple constants (pinned tree)
     };
